@@ -24,7 +24,7 @@ def cases(seed, tier):
             cs.append((f'a{k}', f'rec|{p}|{lim}'))
             k += 1
     dist['exhaustive_2x2_nf'] = len(p22)
-    n = 8000 if tier == 'quick' else 120000
+    n = 8000 if tier == 'quick' else 600000
     sizes = [(3, 2), (2, 3), (4, 2), (2, 4), (3, 3), (5, 2), (2, 5), (6, 2)]
     for i in range(n):
         S, C = rng.choice(sizes)
